@@ -150,7 +150,7 @@ def real_runs(ctx, nrun, directed=False):
             if a.get_pbc().any():
                 continue
             a.set_cell(np.zeros((3, 3)))         # "no cell at all"
-        kw = {} if k % 3 else {"cluster_threshold": float(rng.uniform(2.5, 4.0)), "min_coverage": float(rng.uniform(0.3, 0.7))}
+        kw = {} if k % 3 else {"cluster_threshold": float(rng.uniform(2.5, 4.0) if k % 2 else rng.uniform(3.6, 5.5)), "min_coverage": float(rng.uniform(0.3, 0.7))}
         if directed:
             kw = {}
         if k % 4 == 1 and not directed:      # tolerances / cell sizes handed over as numpy arrays (the documented "float or list" parameters)
@@ -183,6 +183,20 @@ def real_runs(ctx, nrun, directed=False):
         allowed = {None: ("Unknown",), 0: ("Atom",) if len(a) == 1 else ("Class0D",), 1: ("Class1D",), 2: ("Class2D", "Surface", "Material2D"), 3: ("Class3D",)}.get(dim, ())
         if name not in allowed:
             complaints.append("class %s for dimensionality %s" % (name, dim))
+        # second opinion that does not go through the library: rank of the bonding network of the wrapped structure (the oracle of C09)
+        try:
+            from props import c09
+            import matid.geometry as G2
+            rz, r2, _ = c09.oracle_dim(w.get_positions(), np.array(w.get_cell()), [bool(b) for b in w.get_pbc()],
+                                       G2.get_radii("covalent", w.get_atomic_numbers()), kw.get("cluster_threshold", 3.5))
+            if isinstance(rz, int) and rz == r2 and np.array(w.get_cell()).any() and abs(np.linalg.det(np.array(w.get_cell()))) > 1e-6:
+                ctx.count("class_vs_rank_oracle")
+                allowed2 = {0: ("Atom",) if len(a) == 1 else ("Class0D",), 1: ("Class1D",), 2: ("Class2D", "Surface", "Material2D"), 3: ("Class3D",)}[rz]
+                if name not in allowed2:
+                    complaints.append("class %s, but the bonding network of the wrapped structure at threshold %.3f has rank %d (independent oracle)" % (
+                        name, kw.get("cluster_threshold", 3.5), rz))
+        except Exception:  # noqa
+            pass
         if isinstance(c, (Surface, Material2D)):
             basis = set(int(i) for i in c.basis_indices)
             outl = set(int(i) for i in c.outliers)
@@ -228,7 +242,7 @@ REGION_REC = region_model.RegionRecorder(max_records=40, stride=1)
 def run(ctx):
     common.install_matid()
     broken = []
-    terr = common.regen(ctx, ("classifier_rule", "region_rule"))
+    terr = common.regen(ctx, ("classifier_rule", "region_rule", "dim_rule"))
     if terr:
         for t in THEOREMS:
             ctx.obligations.append((t, False))
